@@ -1,5 +1,8 @@
 (* C16 model driver.
-   stdin : "<id>\t<mode> <N> <Q> <cap>;<main body>;<task0>/<task1>/..."   mode: O (as found) | F (fixed)
+   stdin : "<id>\t<mode> <N> <Q> <cap>;<main body>;<task0>/<task1>/..."   mode: O (blocking sends, the tree before
+           fixes/C16-nonblocking-enqueue) | F (fixed = the tree) | S (refuted variant: batched fallback that skips one,
+           Model step_fn_skip; only used to classify an observed hang)
+           cap = 0: no exhaustive exploration (verdict "nox"); only the first-enabled scheduler is run (first=, ffinal=)
            body = space separated tokens  sJ (start task J) | aJ (await promise J); may be empty
    stdout: "<id>\t<verdict> states=<n> hang=<class,...> exact=<0|1> det=<0|1> final=<t:pc:st,...> first=<verdict of the first-enabled scheduler>"
    verdict (breadth-first exploration of ALL interleavings of the extracted step_fn, up to <cap> states):
@@ -9,7 +12,8 @@
      cap    state cap reached before the exploration finished (no verdict)
    The process exits when the main thread finishes, so stuck states after that are not counted.
    exact=1: in every explored terminal state each settled task t has takes = parks + 1 and settles = 1.
-   det=1 : every terminal state with the main thread finished has the same task statuses and pcs. *)
+   det=1 : every terminal state with the main thread finished has the same task statuses and pcs.
+   lost=<t,..>: tasks that in some explored stuck state are started, unsettled and in no place (occ = 0). *)
 open C16_Await
 open Datatypes
 
@@ -74,14 +78,14 @@ let final_str s =
   String.concat ","
     (List.mapi (fun t st -> Printf.sprintf "%d:%d:%s" t (int_of_nat (List.nth s.s_pc t)) (st_char st)) s.s_st)
 
-let explore c cap =
+let explore stepf enabledf c cap =
   let seen = Hashtbl.create 4096 in
   let q = Queue.create () in
   let s0 = init c in
   Hashtbl.add seen (key s0) ();
   Queue.add s0 q;
   let n = ref 1 and hung = ref 0 and fin = ref 0 and capped = ref false in
-  let classes = ref [] and exact = ref true and det = ref true and final = ref None in
+  let classes = ref [] and exact = ref true and det = ref true and final = ref None and lost = ref [] in
   while not (Queue.is_empty q) do
     let s = Queue.pop q in
     if main_done c s then begin
@@ -92,14 +96,15 @@ let explore c cap =
       (match !final with None -> final := Some f | Some g -> if g <> f then det := false)
     end
     else begin
-      let acts = enabled c s in
+      let acts = enabledf c s in
       if acts = [] then begin
         Stdlib.incr hung;
-        classes := hang_classes c s !classes
+        classes := hang_classes c s !classes;
+        List.iteri (fun t st -> if st = TLive && int_of_nat (occ s (nat_of_int t)) = 0 && not (List.mem t !lost) then lost := t :: !lost) s.s_st
       end;
       List.iter
         (fun a ->
-          match step_fn c s a with
+          match stepf c s a with
           | Some s1 ->
               let k = key s1 in
               if not (Hashtbl.mem seen k) then
@@ -116,7 +121,7 @@ let explore c cap =
   let verdict =
     if !capped then "cap" else if !hung = 0 then "term" else if !fin = 0 then "hang" else "mixed"
   in
-  (verdict, !n, List.sort compare !classes, !exact, !det, match !final with Some f -> f | None -> "-")
+  (verdict, !n, List.sort compare !classes, !exact, !det, (match !final with Some f -> f | None -> "-"), List.sort compare !lost)
 
 let () =
   Zio.iter_lines (fun line ->
@@ -135,12 +140,20 @@ let () =
                   { c_mode = (if m = "O" then Orig else Fixed); c_N = nat_of_int n; c_Q = nat_of_int q;
                     c_main = parse_body mainb; c_tasks = tb }
                 in
-                let verdict, states, classes, exact, det, final = explore c cap in
+                let stepf, enabledf = if m = "S" then (step_fn_skip, enabled_skip) else (step_fn, enabled) in
+                let verdict, states, classes, exact, det, final, lost =
+                  if cap > 0 then explore stepf enabledf c cap else ("nox", 0, [], true, true, "-", [])
+                in
+                (* first-enabled scheduler of the protocol itself (never the S variant) *)
                 let sf = run_first c (nat_of_int 100000) (init c) in
                 let first = if main_done c sf then "term" else if stuck c sf then "hang" else "other" in
-                Printf.printf "%s\t%s states=%d hang=%s exact=%d det=%d wf=%d final=%s first=%s\n" id verdict states
+                let fexact = if main_done c sf then exact_ok c sf else true in
+                Printf.printf "%s\t%s states=%d hang=%s exact=%d det=%d wf=%d final=%s first=%s ffinal=%s fexact=%d lost=%s\n" id
+                  verdict states
                   (if classes = [] then "-" else String.concat "," classes)
-                  (if exact then 1 else 0) (if det then 1 else 0) (if wf c then 1 else 0) final first
+                  (if exact then 1 else 0) (if det then 1 else 0) (if wf c then 1 else 0) final first (final_str sf)
+                  (if fexact then 1 else 0)
+                  (if lost = [] then "-" else String.concat "," (List.map string_of_int lost))
             | _ -> print_string (id ^ "\tbad-input\n")
           with e -> print_string (id ^ "\tbad-input " ^ Printexc.to_string e ^ "\n"))
       | _ -> ())
